@@ -299,6 +299,49 @@ def run(chk, tier):
         else:
             chk.bad("R04.7", m, "%s is true for the orderings %s of ord(a, b); the operator means %s" % (m, sorted(accept), sorted(want)), "rscel/src/types/cel_value.rs")
     sort_guard(chk, F, "R04.8")
+    # ---- R04.9 min / max on three arguments: the defining fold with strict replacement (first extreme kept)
+    chk.rule("R04.9", "min / max over (a0, a1, a2): every later argument is compared with the extreme found so far (lt for min, gt for max, argument on the left), replaces it only when "
+                      "the comparison is true, and the survivor is returned - for all four outcomes of the two comparisons")
+    import itertools as _it
+
+    def minmax_rows(fn, op):
+        fb = F.body("rscel::context::default_funcs::" + fn)
+
+        class MMPolicy(semtables.LogicPolicy):
+            max_paths = 2000
+
+            def limit_for(self, body, blk):
+                return 8
+
+            def stub(self, interp, st, path, c, args, t, caller):
+                m_ = re.search(r"CelValue::(lt|gt|le|ge)$", path)
+                if m_:
+                    k_ = len([e for e in st.trace if e[0] == "cmp"]) + 1
+                    st.event("cmp", m_.group(1), tuple(symex.render(a_) for a_ in args))
+                    return [(st, ("call", "cmp#%d" % k_, tuple(), CVT))]
+                return None
+        it_ = symex.Interp(F, MMPolicy())
+        rows_ = set()
+        for st_, r_ in it_.run(fb, [symex.U("this", CVT), ("seq", tuple(symex.U("a%d" % i_, CVT) for i_ in range(3)))]):
+            cmps = tuple((e[1], e[2]) for e in st_.trace if e[0] == "cmp")
+            outs_ = tuple("T" if c[0] == "ne" else "F" for c in st_.cond if c[0] in ("eq", "ne") and re.search(r"is_true\(cmp#\d+\(\)\)", str(c[1])))
+            rows_.add((cmps, outs_, symex.render(r_)))
+        return fb, rows_
+    for fn_, op_ in (("min_impl", "lt"), ("max_impl", "gt")):
+        fb_, got_ = minmax_rows(fn_, op_)
+        want_ = set()
+        for word in _it.product("TF", repeat=2):
+            cur, cmps = "a0", []
+            for i_, o_ in enumerate(word, start=1):
+                cmps.append((op_, ("a%d" % i_, cur)))
+                if o_ == "T":
+                    cur = "a%d" % i_
+            want_.add((tuple(cmps), tuple(word), cur))
+        if got_ == want_:
+            chk.ok("R04.9", fn_, {"rows": len(got_)})
+        else:
+            chk.bad("R04.9", fn_, "%s(a0, a1, a2) does not behave as the fold with strict replacement: implementation only %s, fold only %s"
+                    % (fn_.split("_")[0], sorted(got_ - want_, key=str)[:2], sorted(want_ - got_, key=str)[:2]), fb_.file)
     return chk.finish(
         "Structural wiring of the comparison layer: != = !==, a single ord behind < <= > >=, no value-changing casts in ord/eq/type_prop, "
         "sort/min/max wired to the same order with strict replacement. Decision tables of ord / eq / lt / le / gt / ge by symbolic execution: ordering per type pair, symmetric handling of equality, accepted "
